@@ -181,6 +181,58 @@ impl Monitor for C14 {
             return Ok(());
         }
         c.stats.bump("probe.c14.single_asset_examined");
+        // ---- derived attempts (forks of the state after this step): the same depositor tries to
+        // lock this deposit into an open position of somebody else holding this pool's LP, with
+        // the victim's own duration / a present-but-zero one, for themselves / "on behalf of" the
+        // victim. Whatever the outcome, no position of another owner may change.
+        if step.fault.is_none() {
+            let victims: Vec<mantra_dex_std::farm_manager::Position> = post
+                .positions
+                .iter()
+                .filter(|q| q.open && q.lp_asset.denom == p.pool_info.lp_denom && q.receiver.as_str() != sender.as_str())
+                .take(2)
+                .cloned()
+                .collect();
+            for v in victims.iter() {
+                for d in [v.unlocking_duration, 0, 1] {
+                    for recv in [None, Some(v.receiver.to_string())] {
+                        let snap = c.fork();
+                        let op = Op::Pm {
+                            sender: sender.clone(),
+                            msg: PmMsg::ProvideLiquidity {
+                                liquidity_max_slippage: None,
+                                swap_max_slippage: Some(cosmwasm_std::Decimal::percent(50)),
+                                receiver: recv.clone(),
+                                pool_identifier: pool_identifier.clone(),
+                                unlocking_duration: Some(d),
+                                lock_position_identifier: Some(v.identifier.clone()),
+                            },
+                            funds: vec![coin(amount, denom.clone())],
+                        };
+                        c.w.faucet(&cosmwasm_std::Addr::unchecked(sender.clone()), vec![coin(amount, denom.clone())]);
+                        let o = c.exec_op(&op, None);
+                        let after = c.w.positions();
+                        c.w.restore(&snap);
+                        c.stats.bump(if o.ok() { "probe.c14.foreign_lock_attempt_accepted" } else { "probe.c14.foreign_lock_attempt_refused" });
+                        if o.ok() {
+                            for q in after.iter() {
+                                let before = post.position(&q.identifier);
+                                let changed = before.map(|b| b.lp_asset.amount != q.lp_asset.amount).unwrap_or(true);
+                                if changed && q.receiver.as_str() != sender.as_str() {
+                                    return Err(viol(
+                                        "C14.lock_for_other",
+                                        format!(
+                                            "{}'s single-asset deposit of {amount}{denom} naming position {} (unlocking_duration {d}, receiver {:?}) changed position {} of {}",
+                                            c.w.a.name(sender), v.identifier, recv.as_ref().map(|r| c.w.a.name(r)), q.identifier, c.w.a.name(q.receiver.as_str())
+                                        ),
+                                    ));
+                                }
+                            }
+                        }
+                    }
+                }
+            }
+        }
         // ---- atomicity: rejected => nothing changed
         if !out.ok() && !c.w.storage_eq(&pre_snap) {
             return Err(viol("C14.partial_effect", format!("rejected single-asset deposit changed state at {:?}", c.w.storage_diff(&pre_snap))));
